@@ -1,6 +1,7 @@
 package dbworld
 
 import (
+	"bytes"
 	"fmt"
 	"strings"
 
@@ -33,12 +34,17 @@ const (
 	valLarge
 	valRepeatLatest
 	valRepeatOld
+	valRelated // the newest value grown or cut by a round number of bytes
+	valHuge    // beyond a mebibyte (only in runs that draw it)
 )
 
 // NewValue draws a value for a put on name.
 func (e *Env) NewValue(name string, w []int) []byte {
 	if w == nil {
-		w = []int{10, 2, 1, 2, 1, 1, 1, 4, 2}
+		w = []int{10, 2, 1, 2, 1, 1, 1, 4, 2, 2, 0}
+		if e.hugeRun {
+			w[valHuge] = 1
+		}
 	}
 	k := e.T.Weighted(w)
 	e.valCtr++
@@ -74,6 +80,24 @@ func (e *Env) NewValue(name string, w []int) []byte {
 			if e.T.Bool(1, 2) {
 				return []byte{}
 			}
+		}
+	case valHuge:
+		b := make([]byte, []int{786500, 1 << 20, 3<<20 + 17}[e.T.Choice(3)])
+		for i := range b {
+			b[i] = byte(i*13 + e.valCtr)
+		}
+		return add(b)
+	case valRelated:
+		// same bytes as the newest version up to a length difference of
+		// 1, 255, 256, 257, 512 ... bytes (padding added or stripped, a block
+		// appended, an empty placeholder filled in)
+		if b, ok := e.Model.VersionBytes(name, e.Model.Latest(name)); ok {
+			d := []int{1, 255, 256, 257, 512, 1024, 65536}[e.T.Choice(7)]
+			if e.T.Bool(1, 3) && len(b) > d {
+				return append([]byte{}, b[:len(b)-d]...)
+			}
+			pad := byte(e.T.Choice(2)) * byte('=')
+			return append(append([]byte{}, b...), bytes.Repeat([]byte{pad}, d)...)
 		}
 	case valRepeatOld:
 		vs := e.Model.Versions(name)
